@@ -70,6 +70,7 @@ class Trace:
         self.lib_calls = []      # every call to a function outside the repository (qname, loc)
         self.inlined = set()
         self.static_locals = []
+        self.setvar_all = []
         self.pruned = False
         self.vec_access = {}           # vecmodel: location of a subscript -> set of 'ok' / 'oob' / 'unknown'
         self.globals_read = {}  # qname -> (const?, loc)
@@ -336,7 +337,11 @@ class Evaluator:
                 return self.E(e['args'][0], P, fr)
             if 'basic_string<char' in str(e.get('t', '')) and e['args'] and e.get('ctor', '').startswith(('void (const char *', 'void (const std::basic_string')):
                 return self.E(e['args'][0], P, fr)
-            if not e['args'] and str(e.get('t', '')) in self.prog.records:
+            if not e['args'] and ty_ in self.prog.records:
+                if any(f_.get('ctor') and not f_.params and (f_.inits or stmts(f_.body)) for f_ in self.prog.methods_of(ty_)):
+                    r = self.construct_object(e, P, fr)
+                    if r is not None:
+                        return r
                 return ('struct', {})
             return ('unk', 'construct ' + e.get('t', ''))
         if k == 'str':
@@ -748,12 +753,25 @@ class Evaluator:
         if n in ('set_var', 'set_vec') and 'manufactured_solution<' in e.get('rec', ''):
             from .ast import str_value
             nm = str_value(args_e[0])
+            t0 = None
             if nm is None:
                 t0 = self.E(args_e[0], P, fr)
                 if t0[0] == 'str':
                     nm = t0[1]
             val = self.E(args_e[1], P, fr)
             self.trace.setvar_calls.append((nm, loc, n, val))
+            if nm is None and t0 is not None and self.regmap is not None and n == 'set_var' and t0[0] == 'field' and t0[2] == 'first' and \
+                    t0[1][0] == 'call' and t0[1][1] in ('op:operator->', 'op:operator*') and len(t0[1][2]) == 1:
+                it_ = t0[1][2][0]
+                it0 = it_[2][0] if (it_[0] == 'call' and it_[1] == 'loopvar') else it_
+                if it0[0] == 'mcall' and it0[1][0] == 'sym' and it0[1][1].split('.')[-1] == 'varmap' and it0[2] in ('begin', 'cbegin'):
+                    # set_var(it->first, v) inside a loop over the object's own varmap: every registered scalar receives v
+                    # (the caller checks that the loop is a whole-map traversal: trace.setvar_all)
+                    self.trace.setvar_all.append((val, loc))
+                    for path_ in set(self.regmap.values()):
+                        P.mem[path_] = val
+                        self.trace.writes.setdefault(path_, []).append(loc)
+                    return num(0)
             if self.regmap is not None:
                 path = self.regmap.get(nm)
                 if path is not None:
@@ -810,6 +828,11 @@ class Evaluator:
     def elem_of(bt, it):
         if bt[0] == 'aptr' and it[0] == 'num' and it[1].denominator == 1:
             bt, it = bt[1], num(bt[2] + int(it[1]))
+        # read over a chain of stores at constant positions: A[i := v][j] is v when i == j, A[j] when both are constants and differ
+        while bt[0] == 'call' and bt[1] == 'elemstore' and len(bt[2]) == 3 and it[0] == 'num' and bt[2][1][0] == 'num':
+            if bt[2][1] == it:
+                return bt[2][2]
+            bt = bt[2][0]
         if bt[0] == 'cvec' and it[0] == 'num' and it[1].denominator == 1 and 0 <= int(it[1]) < len(bt[1]) and bt[1][int(it[1])] is not None:
             return bt[1][int(it[1])]
         if bt[0] == 'arr' and it[0] == 'num' and it[1].denominator == 1 and 0 <= int(it[1]) < len(bt[1]):
@@ -1710,7 +1733,7 @@ class Evaluator:
                 if before_l.get(kx) != v and kx in before_l:
                     changed_l.setdefault(kx, []).append(v)
             for kx, v in p.mem.items():
-                if before_m.get(kx) != v and kx in before_m:
+                if before_m.get(kx) != v and (kx in before_m or getattr(self, 'loop_new_members', False)):
                     changed_m.setdefault(kx, []).append(v)
         npre = len(P.events)
         cond_t = self.E(s['c'], P.fork(), fr) if s.get('c') is not None else None
